@@ -26,11 +26,15 @@ structure Obs where
   inState : Bool := false             -- the function called last (not yet returned) is a state function
   pending : Option Req := none        -- the most recent request, as long as the machine has not taken it
   taken : Option Req := none          -- a start was taken just now; its state is still to be entered
-  requesting : Bool := false          -- a start request of the module has begun and not yet posted its task
+  requesting : Nat := 0               -- start requests of the module that have begun and not yet posted their task
+  startCredit : Nat := 0              -- start requests of the module that have posted their task and not yet returned
+  stopOwed : Nat := 0                 -- stop requests of the module that have begun while a state function was active (and
+                                      -- the machine has not become inactive since) and have not yet posted their task
+  stopCredit : Nat := 0               -- stop requests of the module that have posted their task and not yet returned
   lastPost : Option Req := none       -- the most recent request
   postedInCycle : Bool := false       -- a request arrived since the current cycle began
-  lastEnter : Option (Option Sid) := none   -- the previous event (status reports aside) if it was a transition
-  lastInterrupt : Bool := false       -- the previous event was an interruption
+  lastEnter : Option (Option Sid) := none   -- the previous event of the cycle thread if it was a transition
+  lastInterrupt : Bool := false       -- the previous event of the cycle thread was an interruption
   attrs : Attrs := []                 -- attributes as of the last start taken
   idle : Status := (0, "")            -- the final / stopped status most recently declared
   callsInCycle : Nat := 0
@@ -54,14 +58,30 @@ def isErrorRet : Ret → Bool
   | .raise => true
   | _ => false
 
+/-- events of the thread that runs `cycle` (the others — requests, their bookkeeping, status reports — may come from
+    any thread and fall between two of these) -/
+def isCycleEv : Ev → Bool
+  | .reqStart => false
+  | .reqStop => false
+  | .reqDone _ => false
+  | .post _ => false
+  | .status _ => false
+  | _ => true
+
 /-- one more event has been seen -/
 def Obs.step (o : Obs) : Ev → Obs
-  | .reqStart => { o with requesting := true, lastEnter := none, lastInterrupt := false }
+  | .reqStart => { o with requesting := o.requesting + 1 }
+  | .reqStop => { o with stopOwed := if o.cur.isSome then o.stopOwed + 1 else o.stopOwed }
+  | .reqDone true => { o with startCredit := o.startCredit - 1 }
+  | .reqDone false => { o with stopCredit := o.stopCredit - 1 }
   | .take => { o with pending := none, taken := startOf o.pending, lastEnter := none, lastInterrupt := false }
   | .post r =>
-    { o with pending := some r, requesting := false, lastPost := some r, postedInCycle := true,
-             idle := match r with | .stop st => st | _ => o.idle,
-             lastEnter := none, lastInterrupt := false }
+    { o with pending := some r, lastPost := some r, postedInCycle := true,
+             requesting := if isStart r then o.requesting - 1 else o.requesting,
+             startCredit := if isStart r && decide (0 < o.requesting) then o.startCredit + 1 else o.startCredit,
+             stopOwed := if isStart r then o.stopOwed else o.stopOwed - 1,
+             stopCredit := if !isStart r && decide (0 < o.stopOwed) then o.stopCredit + 1 else o.stopCredit,
+             idle := match r with | .stop st => st | _ => o.idle }
   | .cycleBegin =>
     { o with postedInCycle := false, callsInCycle := 0, cleanupsInCycle := 0, lastEnter := none, lastInterrupt := false }
   | .cycleEnd _ _ => { o with lastEnter := none, lastInterrupt := false }
@@ -78,7 +98,7 @@ def Obs.step (o : Obs) : Ev → Obs
   | .interrupt _ =>
     { o with mustInterrupt := false, mustCleanup := o.runCleanup, interrupted := true, lastEnter := none, lastInterrupt := true }
   | .enter ns =>
-    { o with cur := ns, fresh := true,
+    { o with cur := ns, fresh := true, stopOwed := match ns with | none => 0 | some _ => o.stopOwed,
              interrupted := match ns with | none => false | some _ => o.interrupted,
              lastEnter := some ns, lastInterrupt := false }
   | .pickup _ cl snap =>
@@ -117,13 +137,14 @@ def okInit (o : Obs) : Ev → Bool
 
 /-- *a run interrupted by stop, restart or error executes its cleanup exactly once*: an error of a state
     function interrupts at once; an interruption of a run that (still) has a cleanup is followed at once by
-    the call of that cleanup; a cleanup function is called only so (never in a run that was not interrupted,
+    the call of that cleanup ("at once": as the next thing the cycle thread does); a cleanup function is called only so (never in a run that was not interrupted,
     never a second time, never another run's). -/
 def okCleanupOnce (o : Obs) (e : Ev) : Bool :=
-  (match o.mustCleanup with
-   | some c => e == .cleanup c
-   | none => true) &&
-  (!o.mustInterrupt || e == .interrupt .error) &&
+  (!isCycleEv e ||
+    ((match o.mustCleanup with
+      | some c => e == .cleanup c
+      | none => true) &&
+     (!o.mustInterrupt || e == .interrupt .error))) &&
   (match e with
    | .cleanup c => decide (o.runCleanup = some c) && o.lastInterrupt
    | _ => true)
@@ -146,6 +167,23 @@ def okStopInactive (o : Obs) : Ev → Bool
       | some (.stop _) => !act && !pend
       | _ => true
     else true
+  | _ => true
+
+/-- … *after stop*, for a module built on the machine: a stop request (`stop_machine`) that finds a state function
+    active — also one of a cleanup sequence in progress — has posted its stop to the machine when it returns
+    (unless the machine became inactive meanwhile: then there is nothing to stop).  A stop request that finds the
+    machine inactive does nothing (documented: "if the state machine is not running, nothing happens").
+    Requests may overlap (second thread): a returning stop request is in order if some stop request has posted and
+    not yet returned (`stopCredit`), or if no stop request owes a stop (`stopOwed`). -/
+def okStopPosted (o : Obs) : Ev → Bool
+  | .reqDone false => decide (0 < o.stopCredit) || decide (o.stopOwed = 0)
+  | _ => true
+
+/-- … *after start*, for a module built on the machine: a start request (`start_machine`) has posted its start to the
+    machine when it returns — whatever the machine is doing (requests may overlap: some start request has posted
+    and not yet returned). -/
+def okStartPosted (o : Obs) : Ev → Bool
+  | .reqDone true => decide (0 < o.startCredit)
   | _ => true
 
 /-- *after start the most recently requested state is entered with exactly its attributes …*: what the machine
@@ -180,11 +218,11 @@ def Obs.engaged (o : Obs) : Bool := o.cur.isSome || isStartReq o.pending || o.ta
     its final or stopped status afterwards* (while a start request is being issued by another thread — begun,
     task not yet posted — either is accepted) -/
 def okBusy (r : Rules) (o : Obs) : Ev → Bool
-  | .status st => if o.requesting then true else if o.engaged then isBusy r st else true
+  | .status st => if 0 < o.requesting then true else if o.engaged then isBusy r st else true
   | _ => true
 
 def okFinal (o : Obs) : Ev → Bool
-  | .status st => if o.requesting then true else if o.engaged then true else decide (st = o.idle)
+  | .status st => if 0 < o.requesting then true else if o.engaged then true else decide (st = o.idle)
   | _ => true
 
 /-! ## the clauses as properties of a history -/
@@ -194,14 +232,16 @@ def NeverRaises (idle : Status) := Always idle okNoRaise
 def InitFlagExact (idle : Status) := Always idle okInit
 def CleanupExactlyOnce (idle : Status) := Always idle okCleanupOnce
 def CleanupNotInterrupted (idle : Status) := Always idle okCleanupNotInterrupted
-def StopMakesInactive (idle : Status) := Always idle okStopInactive
-def LastStartWins (idle : Status) (tr : List Ev) := Always idle okLastStart tr ∧ Always idle okPickedUp tr
+def StopMakesInactive (idle : Status) (tr : List Ev) := Always idle okStopInactive tr ∧ Always idle okStopPosted tr
+def LastStartWins (idle : Status) (tr : List Ev) :=
+  Always idle okLastStart tr ∧ Always idle okPickedUp tr ∧ Always idle okStartPosted tr
 def BusyUntilFinished (idle : Status) (r : Rules) (tr : List Ev) := Always idle (okBusy r) tr ∧ Always idle okFinal tr
 
 /-! ## monitors -/
 
 inductive Clause where
-  | bound | noRaise | initFlag | cleanupOnce | cleanupNotInterrupted | stopInactive | lastStart | pickedUp | busy | final
+  | bound | noRaise | initFlag | cleanupOnce | cleanupNotInterrupted | stopInactive | stopPosted | lastStart | pickedUp
+  | startPosted | busy | final
 deriving DecidableEq, Repr
 
 def Clause.name : Clause → String
@@ -211,6 +251,8 @@ def Clause.name : Clause → String
   | .cleanupOnce => "cleanup_exactly_once"
   | .cleanupNotInterrupted => "cleanup_not_interrupted"
   | .stopInactive => "stop_makes_inactive"
+  | .stopPosted => "stop_makes_inactive:stop-request-not-posted"
+  | .startPosted => "last_start_wins:start-request-not-posted"
   | .lastStart => "last_start_wins"
   | .pickedUp => "last_start_wins:waiting-request-not-taken"
   | .busy => "busy_until_finished"
@@ -231,6 +273,8 @@ def violated (maxloops : Nat) (hasStates : Bool) (r : Rules) (o : Obs) (e : Ev) 
   (if okCleanupOnce o e then [] else [.cleanupOnce]) ++
   (if okCleanupNotInterrupted o e then [] else [.cleanupNotInterrupted]) ++
   (if okStopInactive o e then [] else [.stopInactive]) ++
+  (if okStopPosted o e then [] else [.stopPosted]) ++
+  (if okStartPosted o e then [] else [.startPosted]) ++
   (if okLastStart o e then [] else [.lastStart]) ++
   (if okPickedUp o e then [] else [.pickedUp]) ++
   (if hasStates && !okBusy r o e then [.busy] else []) ++
